@@ -80,6 +80,9 @@ MUTANTS = [
  ('benign-component-arms-reordered', 'render', 'component.rs', '                Component::Hyphen => "-".to_string(),\n                Component::IgnoreCaseFlag => "(?i)".to_string(),', '                Component::IgnoreCaseFlag => "(?i)".to_string(),\n                Component::Hyphen => "-".to_string(),', 'pass', ''),
  ('benign-find-next-state-max-compared-first', 'trie', 'dfa.rs', '            } else if current_grapheme.maximum() == grapheme.maximum() {', '            } else if grapheme.maximum() == current_grapheme.maximum() {', 'pass-kf', ''),
  ('benign-elim-inner-loops-index-renamed', 'elim', 'expression.rs', '                    for j in 0..n {\n                        a[(i, j)] = Self::union(\n                            &a[(i, j)],\n                            &Self::concatenate(&a[(i, n)], &a[(n, j)], config),', '                    for k in 0..n {\n                        a[(i, k)] = Self::union(\n                            &a[(i, k)],\n                            &Self::concatenate(&a[(i, n)], &a[(n, k)], config),', 'not-fail', ''),
+ ('single-codepoint-uses-minimum', 'expr', 'expression.rs', '&& cluster.graphemes().first().unwrap().maximum() == 1', '&& cluster.graphemes().first().unwrap().minimum() == 1', 'undecided-or-fail', 'is_single_codepoint'),
+ ('single-codepoint-ignores-count', 'expr', 'expression.rs', 'cluster.char_count(*is_non_ascii_char_escaped) == 1\n                    && cluster.graphemes().first().unwrap().maximum() == 1', 'cluster.char_count(*is_non_ascii_char_escaped) >= 1\n                    && cluster.graphemes().first().unwrap().maximum() == 1', 'fail', 'is_single_codepoint'),
+ ('character-class-drops-second-set', 'expr', 'expression.rs', 'let union_set = first_char_set.union(&second_char_set).copied().collect();', 'let union_set = first_char_set.union(&first_char_set).copied().collect();', 'undecided-or-fail', 'new_character_class'),
  ('wasm-wrong-field', 'wasm', 'wasm.rs', 'self.builder.config.is_start_anchor_disabled = true;\n        self.clone()', 'self.builder.config.is_end_anchor_disabled = true;\n        self.clone()', 'fail', 'wasm.withoutStartAnchor'),
 ]
 def _one(repo, m):
